@@ -49,6 +49,16 @@ class Env(object):
         self.P = ec.PointJacobi(curve, Pa[0] * z * z % p, Pa[1] * z ** 3 % p,
                                 z, t.n)
         self.Pa = Pa
+        # generator-flagged points handed over UNSCALED (z != 1): H has no
+        # table yet, H2's table is already built (the object keeps z != 1)
+        Ha = self.tenv.mult[9]
+        zh = 5
+        self.Ha = Ha
+        self.H = ec.PointJacobi(curve, Ha[0] * zh * zh % p,
+                                Ha[1] * zh ** 3 % p, zh, t.n, generator=True)
+        self.H2 = ec.PointJacobi(curve, Ha[0] * zh * zh % p,
+                                 Ha[1] * zh ** 3 % p, zh, t.n, generator=True)
+        self.H2 * 2
         # keys live on a private Curve object whose generator is fresh too
         from ecdsa import curves
         g2 = ec.PointJacobi(curve, t.G[0], t.G[1], 1, t.n, generator=True)
@@ -65,7 +75,7 @@ class Env(object):
         self.sig = None
 
     def shared(self):
-        objs = [self.G, self.P, self.vk, self.vk.pubkey, self.vk.pubkey.point,
+        objs = [self.G, self.P, self.H, self.H2, self.vk, self.vk.pubkey, self.vk.pubkey.point,
                 self.sk, self.sk.privkey, self.sk.verifying_key,
                 self.sk.verifying_key.pubkey,
                 self.sk.verifying_key.pubkey.point, self.curve.generator]
@@ -73,7 +83,8 @@ class Env(object):
 
     def snapshot(self):
         out = []
-        for o in (self.G, self.P, self.curve.generator, self.vk.pubkey.point,
+        for o in (self.G, self.P, self.H, self.H2, self.curve.generator,
+                  self.vk.pubkey.point,
                   self.sk.verifying_key.pubkey.point):
             d = vars(o)
             out.append((d.get("_PointJacobi__coords"),
@@ -150,6 +161,12 @@ def ops_table():
         "11*G": lambda e: aff(e.ec, 11 * e.G),
         "G*(n-1)": lambda e: aff(e.ec, e.G * (e.t.n - 1)),
         "G*(2n-1)": lambda e: aff(e.ec, e.G * (2 * e.t.n - 1)),
+        "H*4": lambda e: aff(e.ec, e.H * 4),
+        "H2*6": lambda e: aff(e.ec, e.H2 * 6),
+        "H2*(n+1)": lambda e: aff(e.ec, e.H2 * (e.t.n + 1)),
+        "H2.scale": lambda e: aff(e.ec, e.H2.scale()),
+        "H.to_affine": lambda e: aff(e.ec, e.H.to_affine()),
+        "pickle(H2)": lambda e: unpickle_probe(e, e.H2),
         "P*3": lambda e: aff(e.ec, e.P * 3),
         "P*(n+2)": lambda e: aff(e.ec, e.P * (e.t.n + 2)),
         "P+G": lambda e: aff(e.ec, e.P + e.G),
@@ -176,7 +193,7 @@ def ops_table():
     }
 
 
-MUTATORS = ["G*5", "11*G", "P*3", "P.scale", "P.to_affine", "G.mul_add",
+MUTATORS = ["G*5", "11*G", "H*4", "H2.scale", "H.to_affine", "P*3", "P.scale", "P.to_affine", "G.mul_add",
             "P.mul_add", "vk.precompute", "vk.precompute(lazy)", "vk.verify",
             "sk.sign", "pickle(G)", "pickle(P)", "P.x"]
 
@@ -189,6 +206,9 @@ def probe(e):
     for k in (1, 2, 5, n - 1, n + 3, 2 * n - 1):
         out.append(aff(ec, e.G * k))
         out.append(aff(ec, e.curve.generator * k))
+    for k in (1, 3, n - 1, n + 2):
+        out.append(aff(ec, e.H * k))
+        out.append(aff(ec, e.H2 * k))
     out.append(aff(ec, e.P))
     out.append(aff(ec, e.P * 3))
     out.append(aff(ec, e.P + e.G))
